@@ -889,3 +889,40 @@ pub fn durq_set() -> Vec<Program> {
     }
     v
 }
+
+// ------------------------------------------------------------------------------------------------
+// C26: persistable programs
+
+pub fn persist_set() -> Vec<Program> {
+    let mut v = vec![
+        p3(1, 0, 1),
+        p3(5, 3, 2),
+        p3(5, 5, 3),
+        p3(4, 6, 6),
+        p3(4, 2, 7),
+        p3(3, 7, 1),
+        p3(1, 2, 4),
+        p3(2, 0, 5),
+        p3(1, 1, 8),
+    ];
+    // a non-persisted function (the lru function) between two persisted ones: its dependencies
+    // must be flattened into the persisted caller
+    v.push(Program {
+        name: "persist-through-nonpersisted".into(),
+        cells: vec![(0, Dur::Low), (1, Dur::Low)],
+        nodes: vec![
+            NodeDef::new(Kind::Ev, Ex::add(cell(0), k(1))),
+            NodeDef::new(Kind::Lru, Ex::add(call(0), cell(1))),
+            NodeDef::new(Kind::Ev, Ex::add(call(1), k(2))),
+        ],
+        ext: vec![0],
+        root0: None,
+    });
+    v
+}
+
+pub fn persist_alphabet(p: &Program) -> Vec<Op> {
+    let mut a = base_alphabet(p);
+    a.push(Op::RoundTrip);
+    a
+}
